@@ -616,8 +616,8 @@ Section P.
     r_live : lv s -> lv s';
     r_log : exists es, log s' = log s ++ es /\ Forall nodata es /\ (lclosed s = true -> Forall quiet es) /\
             (closes es + b2n (lclosed s) = b2n (lclosed s'))%nat /\
-            (lwl s <= lws -> lwl s' + recvd es = lwl s + adjusted es /\ lwl s' <= lws /\
-                             (lclosed s' = false -> lws / 2 <= lwl s -> lws / 2 <= lwl s')) }.
+            (lwl s' + recvd es = lwl s + adjusted es /\
+             (lclosed s' = false -> lws / 2 <= lwl s -> lws / 2 <= lwl s')) }.
 
   Lemma reff_recv_data s cb d : is_cb cb -> reff s (recv_data s cb d).
   Proof.
@@ -635,6 +635,7 @@ Section P.
     { destruct slc, src; cbn; split; cbn; auto; try (unfold lv; cbn; intuition congruence);
         try (unfold cl; cbn; intuition congruence); rewrite <- ?app_assoc; give_es; repeat split; intros; try discriminate; repeat constructor; cbn; try lia; auto. }
     destruct (Hc d) as (N1 & Q1 & R1 & A1 & C1).
+    assert (lws / 2 <= lws) as Hhalf by (apply N.div_le_upper_bound; lia).
     destruct (N.ltb_spec (slw - len d) (lws / 2)) as [H3|H3]; cbn.
     - destruct slc; cbn; split; cbn; auto; try (unfold cl; cbn; intuition congruence); rewrite <- ?app_assoc; give_es;
         (repeat split; intros; try discriminate; repeat constructor; auto;
@@ -654,6 +655,13 @@ Section P.
        rewrite <- ?app_assoc; give_es; repeat split; intros; try discriminate; repeat constructor; cbn; try lia; auto).
   Qed.
 
+  Lemma reff_app_adjust s n : reff s (adjust_window s n).
+  Proof.
+    unfold adjust_window. dest_st s. cbn. destruct slc; cbn;
+      (split; cbn; auto; try (unfold lv; cbn; intuition congruence); try (unfold cl; cbn; intuition congruence);
+       rewrite <- ?app_assoc; give_es; repeat split; intros; try discriminate; repeat constructor; cbn; try lia; auto).
+  Qed.
+
   (** ---------- one step of the machine ---------- *)
   Record seff (s s' : st) (o : op) : Prop := {
     s_J : J s -> J s'; s_cl : cl s -> cl s'; s_lv : lv s -> lv s';
@@ -661,8 +669,8 @@ Section P.
     s_log : exists es, log s' = log s ++ es /\ Forall (pkt_ok rmp) es /\
             (lclosed s = true -> Forall quiet es) /\
             (closes es + b2n (lclosed s) = b2n (lclosed s'))%nat /\
-            (lwl s <= lws -> lwl s' + recvd es = lwl s + adjusted es /\ lwl s' <= lws /\
-                             (lclosed s' = false -> lws / 2 <= lwl s -> lws / 2 <= lwl s'));
+            (lwl s' + recvd es = lwl s + adjusted es /\
+             (lclosed s' = false -> lws / 2 <= lwl s -> lws / 2 <= lwl s'));
     s_open : lclosed s = false -> lv s -> opn s s' (wdata o) (xdata o) (grant o) }.
 
   Lemma seff_of_eff s s' o :
@@ -695,7 +703,7 @@ Section P.
 
   Lemma step_seff s o : seff s (step s o) o.
   Proof.
-    destruct o as [d|t d| |n|d|t d| ]; cbn [Model.step].
+    destruct o as [d|t d| |n|d|t d| |n]; cbn [Model.step].
     - apply seff_of_eff; [apply eff_write|apply write_J|intros _; apply cl_write|intro H; apply opn_write, H].
     - apply seff_of_eff; [apply eff_write_ext|apply write_ext_J|intros _; apply cl_write_ext|
                           intro H; apply opn_write_ext, H].
@@ -707,6 +715,7 @@ Section P.
     - apply seff_of_reff; try reflexivity. apply reff_recv_data. left. reflexivity.
     - apply seff_of_reff; try reflexivity. apply reff_recv_data. right. eexists. reflexivity.
     - apply seff_of_reff; try reflexivity. apply reff_recv_close.
+    - apply seff_of_reff; try reflexivity. apply reff_app_adjust.
   Qed.
 
   (** ---------- the invariant of every history ---------- *)
@@ -717,7 +726,7 @@ Section P.
     i_open : lclosed s = false -> D s = written ops /\ X s = xwritten ops /\ B s = rw + granted ops;
     i_sent : sent (log s) <= rw + granted ops;
     i_rw : lwl s + recvd (log s) = lws + adjusted (log s);
-    i_lwl : lwl s <= lws /\ (lclosed s = false -> lws / 2 <= lwl s) }.
+    i_lwl : lclosed s = false -> lws / 2 <= lwl s }.
 
   Lemma Inv_init rw : Inv rw [] (init rw lws).
   Proof.
@@ -726,14 +735,14 @@ Section P.
     - unfold cl. cbn. discriminate.
     - unfold lv. cbn. discriminate.
     - intros _. unfold D, X, B. cbn. repeat split. lia.
-    - split; [lia|]. intros _. apply N.div_le_upper_bound; lia.
+    - intros _. apply N.div_le_upper_bound; lia.
   Qed.
 
   Lemma Inv_step rw ops s o : Inv rw ops s -> Inv rw (ops ++ [o]) (step s o).
   Proof.
-    intros [I1 I2 I3 I4 I5 I6 I7 I8 [I9 I10]].
+    intros [I1 I2 I3 I4 I5 I6 I7 I8 I10].
     destruct (step_seff s o) as [S1 S2 S3 S4 (es & L & P & Q & C & W) S6].
-    destruct (W I9) as (W1 & W2 & W3).
+    destruct W as (W1 & W3).
     assert (granted (ops ++ [o]) = granted ops + grant o) as G by (rewrite granted_app; cbn; lia).
     split; auto.
     - rewrite L, closes_app, I4. lia.
@@ -747,7 +756,7 @@ Section P.
       + destruct (S6 eq_refl I3) as (_ & _ & O3). destruct (I6 eq_refl) as (_ & _ & A3).
         unfold B in *. rewrite L, sent_app in O3. lia.
     - rewrite L, recvd_app, adjusted_app. lia.
-    - split; [exact W2|]. intro Ho. apply W3; [exact Ho|]. apply I10.
+    - intro Ho. apply W3; [exact Ho|]. apply I10.
       destruct (lclosed s) eqn:E; [rewrite S4 in Ho by reflexivity; discriminate|reflexivity].
   Qed.
 
@@ -817,7 +826,7 @@ Section P.
 
   Lemma step_flush s o : lv s -> lclosed s = false -> overruns lmp s o = false -> flush (step s o).
   Proof.
-    intros Hlv Ho Hr. destruct o as [d|t d| |n|d|t d| ]; cbn [Model.step].
+    intros Hlv Ho Hr. destruct o as [d|t d| |n|d|t d| |n]; cbn [Model.step].
     - apply opn_write, Ho.
     - apply opn_write_ext, Ho.
     - apply flush_lose, Ho.
@@ -833,6 +842,7 @@ Section P.
         destruct (recv_accepts s (CbExt t) d Hl R1 R2) as [E _]. unfold flush. rewrite E. congruence.
       + destruct (Hlv Hl). congruence.
     - apply reff_recv_close, Ho.
+    - unfold flush, adjust_window. rewrite Ho. cbn. congruence.
   Qed.
 
   Lemma T_close rw ops o :
@@ -882,7 +892,7 @@ Section P.
   Lemma T_replenish rw ops :
     let s := reach rw ops in 2 <= lws -> lclosed s = false -> 1 <= lwl s.
   Proof.
-    intros s H2 Ho. destruct (i_lwl _ _ _ (Inv_reach rw ops)) as [_ H]. fold s in H. specialize (H Ho).
+    intros s H2 Ho. pose proof (i_lwl _ _ _ (Inv_reach rw ops)) as H. fold s in H. specialize (H Ho).
     assert (1 <= lws / 2) by (apply N.div_le_lower_bound; lia). lia.
   Qed.
 
